@@ -18,6 +18,9 @@ EXPLANATION = (
     "_sift_down(0), c_change_score sifts up iff old < new else down on the item's position, _sift_up/_sift_down swap exactly when the parent is lower and descend into the larger child; the index "
     "arithmetic is (i-1)//2, 2i+1, 2i+2 and score comparison is lexicographic with the shorter vector lower; R4 -- the component finder's min-root rule (C03.R1)."
 )
+EXPLANATION += (
+    " " + "R3 also (completeness of _sift_down): every path that ends without a swap has compared the node with its larger existing child and found it not lower (all simple paths of the function's CFG are enumerated)."
+)
 NOT_DECIDED = "Heap order / returned sequence over all operation sequences, and the partition reached by all merge sequences (these need execution or a model)."
 ASSUMPTIONS = ["std::vector / std::unordered_map semantics of push_back, pop_back, erase, operator[]"]
 
@@ -196,6 +199,34 @@ def r3(ctx):
         follow = any(u(x.func) == "self._sift_down" and u(x.args[0]) == ch and util.stmt_of(x).parent is util.stmt_of(c).parent for x in ctx.prog.calls_in(sdn.node))
         n_sw += 1
         ctx.ob(sdn.qual, "sift-down-into-larger-child:%s#%d" % (ch, n_sw), cond and bigger and follow, sdn.loc(c), "swap with %s only if the node is lower than it and it is the larger existing child; continue there" % ch if cond and bigger and follow else "_sift_down swaps with %s without it being the larger child / without the node being lower / without continuing there" % ch)
+    # completeness: a path that ends without a swap has established that the node is not lower than its larger child
+    import networkx as nx
+    from sa.norm import path_atoms
+
+    swap_nodes = {dcfg.node_containing(c) for c in swaps}
+    lacking = None
+    n_paths = 0
+    for path in nx.all_simple_paths(dcfg.g, dcfg.entry, dcfg.exit):
+        if swap_nodes & set(path):
+            continue
+        n_paths += 1
+        A = path_atoms(dcfg, path)
+        if any((t, not pol) in A for t, pol in A):
+            continue  # infeasible: the same (side-effect free) comparison taken both ways
+        low = lambda a, b, pol: ("self._score_lower(%s, %s)" % (a, b), pol) in A
+        if ("rchildindex < self.heap.size()", True) in A:
+            fine = False
+            for X, other in (("rchildindex", "lchildindex"), ("lchildindex", "rchildindex")):
+                x_is_larger = low(other, X, True) or low(X, other, False)
+                if x_is_larger and low(idx, X, False):
+                    fine = True
+        elif ("lchildindex < self.heap.size()", True) in A:
+            fine = low(idx, "lchildindex", False)
+        else:
+            fine = ("rchildindex < self.heap.size()", False) in A and ("lchildindex < self.heap.size()", False) in A
+        if not fine and lacking is None:
+            lacking = path
+    ctx.ob(sdn.qual, "sift-down-stops-only-above-both-children", lacking is None and n_paths >= 3, sdn.loc(), "on each of the %d paths that end without a swap the node was compared with its larger existing child (or has none) and found not lower" % n_paths if lacking is None else "_sift_down can stop although the node was never compared with its larger child (e.g. both children equal): the heap order is left violated", dcfg.describe_path(lacking) if lacking else None)
     ctx.ob(sdn.qual, "children-indices", ok and len(swaps) == 3, sdn.loc(), "children are _left_child(i), _right_child(i); three swap sites (both children / left only)" if ok and len(swaps) == 3 else "_sift_down structure changed")
     for name, want in (("_parent", {"index": 1, "": -1}), ("_left_child", None), ("_right_child", None)):
         f = ctx.func(MOD + "." + name)
